@@ -477,6 +477,7 @@ class NLAbs:
         self.divR = z3.Function('nl!div', z3.RealSort(), z3.RealSort(), z3.RealSort())
         self.mulI = z3.Function('nl!imul', z3.IntSort(), z3.IntSort(), z3.IntSort())
         self.ok = True
+        self.side = []; self.prods = {}
 
     def _num_leaves(self, t, depth=0):
         if depth > 6: return False
@@ -516,9 +517,22 @@ class NLAbs:
                     return build(c)
             if len(rest) >= 2:
                 f = self.mulR if e.sort().kind() == z3.Z3_REAL_SORT else self.mulI
-                rest = sorted(rest, key=lambda t: t.get_id())
-                acc = rest[0]
-                for c in rest[1:]: acc = f(acc, c)
+                # a deterministic order (independent of z3's term numbering, hence of what was solved before in this process) ...
+                rest = sorted(rest, key=lambda t: t.sexpr())
+                def chain(fs):
+                    acc_ = fs[0]
+                    for c_ in fs[1:]: acc_ = f(acc_, c_)
+                    return acc_
+                acc = chain(rest)
+                # ... and commutativity/associativity instances for this product, so that the same product written in another
+                # order or association (or with equal factors under other names) is recognised by congruence
+                if len(rest) <= 4:
+                    key_ = tuple(t.get_id() for t in rest)
+                    if key_ not in self.prods:
+                        self.prods[key_] = rest
+                        for perm in itertools.permutations(range(len(rest))):
+                            if list(perm) == sorted(perm): continue
+                            self.side.append(acc == chain([rest[i_] for i_ in perm]))
                 for c in nums: acc = c * acc
                 return acc
         if k == z3.Z3_OP_DIV and not isnum(ch[1]):
@@ -831,9 +845,29 @@ def discharge(hyps, goal, budget=20.0, skolems=(), want_model=True):
             if na.ok:
                 s = z3.Solver()
                 for f in afs: s.add(f)
+                for f in na.side[:4000]: s.add(f)
                 r, dt = _check(s, 3000)
                 log.append(('B0:abstract-linear', r, round(dt, 3)))
                 if r == 'unsat': return done('proved', 'z3-smt-abstract')
+                if r == 'sat':
+                    # the abstraction orders the factors of a product by term identity; equal factors under different names
+                    # (x == t hypotheses) defeat it.  Eliminate such equations first (equisatisfiable) and try once more.
+                    try:
+                        g_ = z3.Goal()
+                        for f in kept + [gq] + int_h: g_.add(f)
+                        sub_ = z3.Then(z3.Tactic('simplify'), z3.Tactic('solve-eqs'))(g_)
+                        if len(sub_) == 1:
+                            na2 = NLAbs()
+                            afs2 = [na2.ab(f) for f in sub_[0]]
+                            if na2.ok:
+                                s = z3.Solver()
+                                for f in afs2: s.add(f)
+                                for f in na2.side[:4000]: s.add(f)
+                                r2, dt2 = _check(s, 3000)
+                                log.append(('B0:abstract-linear(solve-eqs)', r2, round(dt2, 3)))
+                                if r2 == 'unsat': return done('proved', 'z3-smt-abstract')
+                    except z3.Z3Exception:
+                        pass
             for attempt in (0, 1):
                 if attempt == 1:
                     core = decide_int_atoms(core, int_h)
